@@ -20,7 +20,8 @@ RULE = ('Exhaustive: every line up to length 7 (quick) / 9 (thorough) over the c
         'Unicode characters; Hypothesis long lines (<=200 chars, full Unicode) for all five policies. Oracle = hand-written reference splitter '
         '(fields, warning <=> an unquoted field contains a quote), dlm.join(preserved) == line, unquote(preserved[i]) == fields[i]; simple / '
         'whitespace / monocolumn against str.split(d), split on runs of spaces, identity. Non-trivial = line contains a quote and a delimiter; '
-        'enumerated lines are distinct by construction.')
+        'enumerated lines are distinct by construction.'
+        ' Later additions: delimiters containing a space, special characters at the first / last position, every call repeated (pure function), cores embedded in lines of > 64 and > 256 characters, runs of 15-65 spaces around quoted fields, plain policies on lines of 257 / 300 / 1100 characters.')
 ASSUMPTIONS = ['lines handed to the record iterator contain no CR/LF (line breaking is C12); direct smart_split calls also get LF / CR as ordinary characters', 'delimiter is not the double quote; a multi-character delimiter contains no quote and does not begin with a space (optional spaces after a closing quote would be ambiguous)']
 
 SINGLE = [',', ';', '\t', '|']
